@@ -31,6 +31,8 @@ func main() {
 		os.Exit(cmdDump(os.Args[2:]))
 	case "replay":
 		os.Exit(cmdReplay(os.Args[2:]))
+	case "anchors":
+		os.Exit(cmdAnchors(os.Args[2:]))
 	case "selftest":
 		os.Exit(cmdSelftest(os.Args[2:]))
 	default:
@@ -238,6 +240,19 @@ func cmdCheck(args []string) int {
 		// Obligations are assumed once emitted. If one that belongs to another property fails, everything after it
 		// would hold vacuously; such obligations are found first and the function is re-run without assuming them.
 		var noAssume map[string]bool
+		// a listed known finding fails by definition: assuming it would make everything downstream of it vacuous
+		for _, kf := range loadKnownFindings() {
+			if kf.Kind == "finding" && kf.Property == o.id {
+				base := kf.Obligation
+				if i := strings.LastIndex(base, "#"); i > 0 {
+					base = base[:i]
+				}
+				if noAssume == nil {
+					noAssume = map[string]bool{}
+				}
+				noAssume[base] = true
+			}
+		}
 		var r *FuncResult
 		for round := 0; round < 4; round++ {
 			r = prog.verifyFunction(fn, fc, noAssume)
